@@ -1,5 +1,5 @@
 (* Props_C11.v — C11: suspicion timeout takes effect iff unrefuted; Down is final until forgotten. *)
-From Foca Require Import L_TimeoutLast L_Evidence L_Monotone.
+From Foca Require Import L_TimeoutLast L_Evidence L_Monotone L_Epoch.
 From Foca Require Import Laws L_Lists MembersM FocaM L_Members L_MembersInv L_Join L_Forward L_Reject L_Timeout.
 From Coq Require Import Permutation.
 
@@ -103,6 +103,37 @@ Proof.
   intros NF U V D. destruct (history_down_final rnd l f a k NF U V) as (k' & V' & _ & H). exists k'. auto.
 Qed.
 
+(* THE CONNECTION EPOCH ('the timer belongs to the current connection epoch').  The epoch (timer token)
+   changes only when the instance goes idle, becomes defunct or rejoins: along every call other than
+   change_identity / reuse_down_identity that is not aborted by an Encode error or a panic, the token after
+   the call is the token before it, or the call notified Idle, Defunct or Rejoin; hence over any history of
+   such calls without these notifications the token is unchanged - a suspicion timeout scheduled in an epoch
+   keeps its force for as long as the instance neither went idle nor defunct nor rejoined, whatever else
+   happened (rounds on the IncompleteProbeCycle recovery path included). *)
+Theorem C11_epoch_terms (rnd : oracle) (e : effect Id) (r : result) (f : @foca Id Addr HO) (i : @input Id) (l : list (@input Id)) :
+  (epoch_note e <-> match e with Notify NIdle => True | Notify NDefunct => True | Notify (NRejoin _) => True | _ => False end)
+  /\ (aborted_r r <-> match r with Failed EEncode => True | Panicked _ => True | _ => False end)
+  /\ (same_epoch_hist rnd f [] <-> True)
+  /\ (same_epoch_hist rnd f (i :: l) <->
+      let '(f', es, r, _) := step rnd f i in
+      match i with IChangeIdentity _ | IReuseDown => False | _ => True end
+      /\ ~ aborted_r r /\ ~ Exists epoch_note es /\ same_epoch_hist rnd f' l).
+Proof. repeat split; auto. Qed.
+
+Theorem C11_epoch_changes_only_by_idle_defunct_rejoin (rnd : oracle) (f : @foca Id Addr HO) (i : @input Id) :
+  match i with IChangeIdentity _ | IReuseDown => False | _ => True end ->
+  let '(f', es, r, _) := step rnd f i in
+  match r with
+  | Failed EEncode => True
+  | Panicked _ => True
+  | _ => token f' = token f \/ Exists epoch_note es
+  end.
+Proof. exact (step_epoch rnd f i). Qed.
+
+Theorem C11_epoch_along_histories (rnd : oracle) (l : list (@input Id)) (f : @foca Id Addr HO) :
+  same_epoch_hist rnd f l -> token (run_calls rnd f l) = token f.
+Proof. exact (history_epoch rnd l f). Qed.
+
 End C11.
 
 Print Assumptions C11_stale_epoch_noop.
@@ -112,3 +143,6 @@ Print Assumptions C11_down_final.
 Print Assumptions C11_forget_exact.
 Print Assumptions C11_effective_last_member.
 Print Assumptions C11_down_final_along_histories.
+Print Assumptions C11_epoch_terms.
+Print Assumptions C11_epoch_changes_only_by_idle_defunct_rejoin.
+Print Assumptions C11_epoch_along_histories.
